@@ -177,8 +177,8 @@ fn kmeans_valid_params(r: &mut Runner) {
     for (name, p) in kmeans_param_points::<f64, _>(L1Dist).into_iter().take(3) {
         r.inst(&format!("f64/L1/{}", name), |o| go(o, p));
     }
-    for (name, p) in kmeans_param_points::<f32, _>(L2Dist).into_iter().take(3) {
-        r.inst(&format!("f32/L2/{}", name), |o| go(o, p));
+    for (name, p) in kmeans_param_points::<f32, _>(LpDist(2.5f32)).into_iter().take(3) {
+        r.inst(&format!("f32/Lp(2.5)/{}", name), |o| go(o, p));
     }
 }
 
@@ -462,8 +462,8 @@ fn optics_params(r: &mut Runner) {
     for (name, p) in optics_points::<f64, _>(L2Dist) {
         r.inst(&format!("f64/L2/{}", name), |o| go(o, p));
     }
-    for (name, p) in optics_points::<f32, _>(L1Dist) {
-        r.inst(&format!("f32/L1/{}", name), |o| go(o, p));
+    for (name, p) in optics_points::<f32, _>(LpDist(1.5f32)) {
+        r.inst(&format!("f32/Lp(1.5)/{}", name), |o| go(o, p));
     }
 }
 
